@@ -223,6 +223,72 @@ def first_error(detail):
     return (detail or "").strip().split("\n")[0][:160]
 
 
+LOC = {
+    "go": re.compile(r"^\.?/?([\w./-]+\.go):(\d+)(?::\d+)?: (.*)$"),
+    "rust": re.compile(r"^\s*--> (?:src/)?([\w./-]+\.rs):(\d+):\d+"),
+    "java": re.compile(r"^([\w./-]+\.java):(\d+): error: (.*)$"),
+    "cpp": re.compile(r"^\.?/?([\w./-]+\.(?:hpp|cpp|h)):(\d+):\d+: (?:fatal )?error: (.*)$"),
+    "python": re.compile(r"(?:File \"|at )([\w./-]+\.py)[\", :]+(?:line )?(\d+)"),
+}
+
+
+def rust_test_ranges(text):
+    """line ranges (1-based, inclusive) of the #[cfg(test)] modules of an emitted Rust file"""
+    out, start = [], None
+    for no, l in enumerate(text.split("\n"), 1):
+        if l.startswith("#[cfg(test)]"):
+            start = no
+        elif start is not None and l.startswith("}"):
+            out.append((start, no))
+            start = None
+    return out
+
+
+def codec_build_errors(lang, files, real):
+    """compiler messages located in the emitted CODEC (not in its tests): [(file, line, message)]"""
+    texts = [real.get("build_log", "")] + [t.get("detail", "") for t in real.get("tests", []) if t.get("status") == "error"]
+    seen, out = set(), []
+    for text in texts:
+        lines = text.split("\n")
+        for i, l in enumerate(lines):
+            m = LOC[lang].match(l)
+            if not m:
+                continue
+            f, no = m.group(1), int(m.group(2))
+            msg = m.group(3) if m.lastindex and m.lastindex >= 3 else ""
+            if lang == "rust":
+                # the message is the nearest `error…` line above the arrow
+                for j in range(i - 1, max(-1, i - 6), -1):
+                    if lines[j].startswith("error"):
+                        msg = lines[j]
+                        break
+                else:
+                    continue
+                name = f.rsplit("/", 1)[-1]
+                if any(a <= no <= b for a, b in rust_test_ranges(files.get(name, ""))):
+                    continue
+            elif lang == "go":
+                if f.endswith("_test.go"):
+                    continue
+            elif lang == "java":
+                if "main/java/" not in f:      # test classes, or a path clipped by the runner: not attributable to the codec
+                    continue
+            elif lang == "cpp":
+                if "test/" in f or f.endswith("_test.cpp") or "gtest" in f or "/runtime/" in f:
+                    continue
+            elif lang == "python":
+                if f.endswith("_test.py") or f.rsplit("/", 1)[-1] not in {k.rsplit("/", 1)[-1] for k in files}:
+                    continue
+                if real.get("build") != "error":
+                    continue       # a traceback through the module while a test RUNS is not a build error
+                msg = lines[-1] if lines else ""
+            key = (f.rsplit("/", 1)[-1], no, msg[:80])
+            if key not in seen:
+                seen.add(key)
+                out.append((f, no, msg.strip()[:300]))
+    return out
+
+
 def match_real(real, tname):
     for t in real.get("tests", []):
         if t["name"] == tname or t["name"].endswith("." + tname) or t["name"].endswith("::" + tname) or tname.endswith(t["name"]):
